@@ -96,6 +96,7 @@ func (ex *Exec) resetPath() {
 	ex.stubs = map[string]value{}
 	ex.known = map[int]bool{}
 	ex.bounds = map[int]ival{}
+	ex.linForms = nil
 }
 
 func runJob(prog *ssa.Program, pkgs map[string]*ssa.Package, job *Job) (res *JobResult) {
@@ -261,7 +262,7 @@ func (ex *Exec) panicMessage(v value) string {
 func (ex *Exec) assert(label string, c *Term, pos string) {
 	if ex.pcPos < len(ex.pathCond) || ex.tracePos < len(ex.trace) || ex.noSolver {
 		// re-execution of a prefix explored before: this assertion has been decided already
-		if !c.IsConst() {
+		if !c.IsConst() && ex.pcPos < len(ex.pathCond) && ex.pathCond[ex.pcPos] == c {
 			ex.addCond(c)
 		}
 		return
@@ -304,7 +305,9 @@ func (ex *Exec) assert(label string, c *Term, pos string) {
 		ob.Verdict = "discharged"
 		ob.Backend = ex.inc.name + "(inc)"
 		ob.Elapsed = time.Since(t0).Seconds()
-		ex.addCond(c)
+		if !c.IsConst() {
+			ex.addCond(c)
+		}
 		return
 	}
 	sr := ex.decide(neg, ex.inputs)
